@@ -299,3 +299,79 @@ package cbcmac
 //@   ghostset clen[result] := 0
 //@   fresh result
 //@   modifies nothing
+
+//@ func (*trCBCMAC).Size property C19
+//@   ensures result == t.size
+//@   modifies nothing
+
+// TR-CBC-MAC: padding method 2 only when needed; the tag is the rightmost bytes when padded, the
+// leftmost ones otherwise.
+//@ func (*trCBCMAC).MAC property C19
+//@   config bs in 8,16
+//@   requires t.b != nil && BS(id(t.b)) == bs && 1 <= t.size && t.size <= bs
+//@   inlinecall NewISO9797M2Padding
+//@   let K := id(t.b)
+//@   let SA := arr(src)
+//@   let SO := offof(src)
+//@   let SL := len(src)
+//@   let PM := M2ARR(SA, SO, SL)
+//@   let NP := (SL + bs - SL % bs) / bs
+//@   ensures len(result) == t.size
+//@   ensures (SL == 0 || SL % bs != 0) ==> forall j :: 0 <= j && j < t.size ==> result[j] == CBC(K, ZEROARR(), PM, 0, bs, NP)[bs - t.size + j]
+//@   ensures (SL > 0 && SL % bs == 0) ==> forall j :: 0 <= j && j < t.size ==> result[j] == CBC(K, ZEROARR(), SA, SO, bs, SL / bs)[j]
+//@   modifies src[len(src)..cap(src)]
+//@   loop 1 let P := src
+//@   loop 1 invariant sameobj(src, P) && offof(src) + len(src) == offof(P) + len(P) && offof(P) <= offof(src) && (offof(src) - offof(P)) % bs == 0 && len(P) % bs == 0
+//@   loop 1 invariant padded <==> (SL == 0 || SL % bs != 0)
+//@   loop 1 invariant padded ==> len(P) == bs * NP && (forall j :: 0 <= j && j < len(P) ==> P[j] == PM[j])
+//@   loop 1 invariant padded ==> forall j :: 0 <= j && j < bs ==> tag[j] == CBC(K, ZEROARR(), PM, 0, bs, (offof(src) - offof(P)) / bs)[j]
+//@   loop 1 invariant !padded ==> sameslice(P, old(src)) && arr(P) == SA
+//@   loop 1 invariant !padded ==> forall j :: 0 <= j && j < bs ==> tag[j] == CBC(K, ZEROARR(), SA, SO, bs, (offof(src) - offof(P)) / bs)[j]
+//@   loop 1 decreases len(src)
+
+//@ func shiftRight property C19
+//@   requires len(x) > 0
+//@   ensures forall j :: 1 <= j && j < len(x) ==> x[j] == old(x[j]) / 2 + (old(x[j - 1]) % 2) * 128
+//@   ensures x[0] == bxor8(old(x[0]) / 2, (old(x[len(x) - 1]) % 2) * 128)
+//@   modifies x[0..len(x)]
+//@   loop 1 invariant 0 <= i && i <= len(x) && (lsb == 0 || lsb == 128)
+//@   loop 1 invariant i > 0 ==> lsb == (old(x[i - 1]) % 2) * 128
+//@   loop 1 invariant i == 0 ==> lsb == 0
+//@   loop 1 invariant forall j :: i <= j && j < len(x) ==> x[j] == old(x[j])
+//@   loop 1 invariant forall j :: 1 <= j && j < i ==> x[j] == old(x[j]) / 2 + (old(x[j - 1]) % 2) * 128
+//@   loop 1 invariant i > 0 ==> x[0] == old(x[0]) / 2
+//@   loop 1 invariant onlychanged(x)
+//@   loop 1 decreases len(x) - i
+
+//@ func (*cbcrMAC).Size property C19
+//@   ensures result == c.size
+//@   modifies nothing
+
+// CBCR: chaining starts from E_K(0); the last block is XORed in, rotated by one bit (left when the
+// message was padded, right otherwise -- both rotations are bijections) and encrypted.
+//@ func (*cbcrMAC).MAC property C19
+//@   config bs in 8,16
+//@   requires c.b != nil && BS(id(c.b)) == bs && 1 <= c.size && c.size <= bs
+//@   inlinecall NewISO9797M2Padding
+//@   let K := id(c.b)
+//@   let SA := arr(src)
+//@   let SO := offof(src)
+//@   let SL := len(src)
+//@   let PM := M2ARR(SA, SO, SL)
+//@   let NP := (SL + bs - SL % bs) / bs
+//@   let H0 := ENC(K, BLK(ZEROARR(), 0, bs))
+//@   ensures len(result) == c.size
+//@   ensures (SL == 0 || SL % bs != 0) ==> forall j :: 0 <= j && j < c.size ==> result[j] ==
+//@+     ENC(K, BLK(ROTL1(XWARR(CBC(K, H0, PM, 0, bs, NP - 1), PM, bs * (NP - 1), bs), bs), 0, bs))[j]
+//@   ensures (SL > 0 && SL % bs == 0) ==> forall j :: 0 <= j && j < c.size ==> result[j] ==
+//@+     ENC(K, BLK(ROTR1(XWARR(CBC(K, H0, SA, SO, bs, SL / bs - 1), SA, SO + SL - bs, bs), bs), 0, bs))[j]
+//@   modifies src[len(src)..cap(src)]
+//@   loop 1 let P := src
+//@   loop 1 invariant sameobj(src, P) && offof(src) + len(src) == offof(P) + len(P) && offof(P) <= offof(src) && (offof(src) - offof(P)) % bs == 0 && len(P) % bs == 0 && len(src) >= bs
+//@   loop 1 invariant padded <==> (SL == 0 || SL % bs != 0)
+//@   loop 1 invariant padded ==> len(P) == bs * NP && (forall j :: 0 <= j && j < len(P) ==> P[j] == PM[j])
+//@   loop 1 invariant padded ==> forall j :: 0 <= j && j < bs ==> tag[j] == CBC(K, H0, PM, 0, bs, (offof(src) - offof(P)) / bs)[j]
+//@   loop 1 invariant !padded ==> sameslice(P, old(src)) && arr(P) == SA
+//@   loop 1 invariant !padded ==> forall j :: 0 <= j && j < bs ==> tag[j] == CBC(K, H0, SA, SO, bs, (offof(src) - offof(P)) / bs)[j]
+//@   loop 1 decreases len(src)
+//@   assert before call XORBytes#2: len(src) == bs && (offof(src) - offof(P)) / bs == len(P) / bs - 1 && offof(src) - offof(P) == len(P) - bs
